@@ -27,6 +27,7 @@ sed -i "s#/repo/#$WT/#g" "$VC/harness/Cargo.toml"
 sed -i "s#^target-dir = .*#target-dir = \"$TG\"#" "$VC/harness/.cargo/config.toml"
 cp "$WT/Cargo.lock" "$VC/harness/Cargo.lock"
 mkdir -p "$TG"
+export CARGO_INCREMENTAL=0
 # vlib expects binaries under harness/target
 ln -sfn "$TG" "$VC/harness/target"
 (cd "$VC" && VERIF_REPO="$WT" ./check "$@")
